@@ -129,6 +129,8 @@ func (srv *Server) handleChannel(ctx context.Context, c *ServerChannel) {
 
 	if err != nil {
 		log.Printf("server: establish: %v\n", err)
+		// Release the connection of the session that could not be established
+		_ = c.Close()
 		return
 	}
 
